@@ -139,9 +139,11 @@ class InterfaceLDM4:
             data_consumer.application_id,
         )
 
-        if data_consumer.application_id in self.ldm_service.get_data_consumer_its_aid():
-            self.ldm_service.del_data_consumer_its_aid(
-                data_consumer.application_id)
+        # The removal itself decides the acknowledgement: of several concurrent requests for the
+        # same application only the one that ended the registration answers ACK 0.
+        if data_consumer.application_id in self.ldm_service.get_data_consumer_its_aid() and (
+            self.ldm_service.del_data_consumer_its_aid(data_consumer.application_id)
+        ):
             return DeregisterDataConsumerResp(
                 data_consumer.application_id, DeregisterDataConsumerAck(0)
             )
